@@ -34,9 +34,20 @@ def bounded_task():
     return Task(f"{PROP}.Bd.pipeline", PROP, "real pipeline", run)
 
 
+def _get_deps():
+    from bounded import c07
+    from contracts import deps
+    c = deps.get_deps(PROP)
+    c.search_fn = c07.search
+    return c
+
+
+_get_deps.__name__ = "get_deps"
+
+
 def build(tier, seed):
     set_tier(tier)
-    tasks = [a_task(PROP, _with_search(scoping.host_block)), a_task(PROP, _with_search(scoping.submodule_block)),
+    tasks = [a_task(PROP, _with_search(scoping.host_block)), a_task(PROP, _with_search(scoping.submodule_block)), a_task(PROP, _with_search(scoping.own_procs_hide)), a_task(PROP, _get_deps),
              Task(f"{PROP}.S.extension_order", PROP, "type extension order", lambda: scoping.extension_order(PROP)), bounded_task()]
     meta = {
         "trusted_base": TRUSTED_BASE,
@@ -50,13 +61,16 @@ def build(tier, seed):
         "functions_under_contract": fn_meta([("ford.sourceform", "FortranCodeUnit.correlate",
                                               "block contract: statements from the first `self.all_procs...` up to `if isinstance(self, FortranSubmodule)`; "
                                               "the rest of correlate() is not under contract"),
-                                             ("ford.sourceform", "FortranCodeUnit.correlate", "second block contract: the first `if isinstance(self, FortranSubmodule):` statement")]),
+                                             ("ford.sourceform", "FortranCodeUnit.correlate", "second block contract: the first `if isinstance(self, FortranSubmodule):` statement"),
+                                             ("ford.sourceform", "FortranCodeUnit.correlate.own_procs_hide", "helper closure of the submodule block (free variable self)"),
+                                             ("ford.fortran_project", "Project.correlate.get_deps", "the dependency lists that order correlation (a scope's tables are copied when it is correlated)")]),
         "unverified_surroundings": ["the rest of FortranCodeUnit.correlate (USE merging: see C06; call resolution; the type ordering is a call-site obligation on toposort_flatten, whose contract is assumed)",
                                     "the resolvers FortranVariable.correlate / FortranBoundProcedure.correlate / FortranFinalProc.correlate / "
                                     "FortranInterface.correlate / FortranType.correlate (union-typed slots are outside Engine A's value model; "
                                     "covered only by the bounded pipeline cases)", "_find_chain_item"],
         "explanation": "The host-association block of correlate() is proved to build, for every heap, exactly host-overlaid-by-locals tables and to leave "
-                       "every table of the parent scope unchanged (aliasing is visible in the heap model). A submodule merges the tables of its parent submodule when it has one and "
-                       "of its ancestor module only otherwise, and is appended to the descendants of exactly that parent. Types are correlated in toposort order of their resolved parents.",
+                       "every table of the parent scope unchanged (aliasing is visible in the heap model). A submodule sees the tables of its parent submodule when it has one and "
+                       "of its ancestor module only otherwise, with its own declarations hiding the inherited ones (module-procedure implementations give way to their interface), "
+                       "leaves the host's tables untouched, and is appended to the descendants of exactly that parent. Types are correlated in toposort order of their resolved parents.",
     }
     return tasks, meta
